@@ -26,6 +26,7 @@ type scopeGen struct {
 }
 
 var c19Vars = []string{"$a", "$b", "$c"}
+var c19WideVars = []string{"$a", "$b", "$c", "$d", "$e", "$f", "$g", "$h", "$i", "$j", "$k", "$l"}
 
 func (g *scopeGen) lit() string {
 	g.tag++
@@ -43,10 +44,16 @@ func (g *scopeGen) expr(depth int, scope []string) string {
 		return g.leaf(scope)
 	case 1: // let
 		nb := 1 + r.Intn(2)
+		pool := c19Vars
+		if r.Chance(8) {
+			// a wide let: more bindings than any small inline table holds
+			nb = 5 + r.Intn(6)
+			pool = c19WideVars
+		}
 		var names []string
 		var binds []string
 		for i := 0; i < nb; i++ {
-			v := gen.Pick(r, c19Vars)
+			v := gen.Pick(r, pool)
 			dup := false
 			for _, x := range names {
 				if x == v {
@@ -112,6 +119,9 @@ func (g *scopeGen) leaf(scope []string) string {
 		}
 		return "id"
 	case 1: // possibly unbound
+		if r.Chance(30) {
+			return gen.Pick(r, c19WideVars)
+		}
 		return gen.Pick(r, c19Vars)
 	case 2:
 		return "id"
@@ -129,7 +139,9 @@ func (g *scopeGen) leaf(scope []string) string {
 // bind generates the bound expression: tagged, context-dependent, or referring to outer variables
 func (g *scopeGen) bind(depth int, scope []string) string {
 	r := g.r
-	switch r.Weighted([]int{25, 25, 15, 15, 10, 10}) {
+	switch r.Weighted([]int{25, 25, 15, 15, 10, 10, 9}) {
+	case 6: // a binding whose value is null still binds (and shadows)
+		return gen.Pick(r, []string{"missing", "`null`", "xs[9]", "o.missing"})
 	case 0:
 		return "id"
 	case 1:
@@ -232,6 +244,29 @@ var c19Shapes = []string{
 	"let $a = id in (xs[*] | [0] | [$a, id])",
 	"let $a = 'A' in xs[*].{k: let $b = id in [$a, $b], j: $a}",
 	"let $n = `2` in xs[?n > $n].[id, let $n = n in xs[?n > $n].id]",
+	// wide lets, and narrow lets after them that look up names they do not bind
+	"let $a = 'A', $b = 'B', $c = 'C', $d = 'D', $e = 'E', $f = 'F', $g = 'G', $h = 'H' in [$a, $b, $c, $d, $e, $f, $g, $h]",
+	"let $q = 't' in $a",
+	"let $q = 't' in [$q, $h]",
+	"let $a = 'outer' in let $q = 't' in [$a, $q]",
+	"let $a = 'o1', $b = 'o2', $c = 'o3', $d = 'o4', $e = 'o5', $f = 'o6' in let $q = 't' in [$a, $b, $c, $d, $e, $f, $q]",
+	"xs[*].[let $a = id, $b = n, $c = id, $d = n, $e = id, $f = n, $g = id in [$a, $g]]",
+	"xs[*].[let $q = id in [$q, $a]]",
+	"let $a = 'A', $b = 'B', $c = 'C', $d = 'D', $e = 'E', $f = 'F' in let $a = 'A2', $b = 'B2', $c = 'C2', $d = 'D2', $e = 'E2', $f = 'F2', $g = 'G2' in [$a, $f, $g]",
+	// an inner binding that is null shadows a non-null outer one, at every kind of use site
+	"let $a = id in let $a = missing in [$a]",
+	"let $a = id in let $a = missing in map(&$a, xs)",
+	"let $a = id in let $a = `null` in map(&[$a, id], xs)",
+	"let $a = n in let $a = missing in sort_by(xs, &($a || n))[*].id",
+	"let $a = `100` in let $a = `null` in max_by(xs, &($a || n)).id",
+	"let $a = `100` in let $a = missing in min_by(xs, &($a || n)).id",
+	"let $a = 'g' in let $a = missing in group_by(xs, &($a || id))",
+	"let $a = id in let $a = missing in xs[?$a == `null`].id",
+	"let $a = id in let $a = missing in xs[*].[$a, id]",
+	"let $a = id in let $a = missing in xs[0] | [$a]",
+	"let $a = id, $b = n in let $a = missing in map(&[$a, $b], xs)",
+	"let $a = id in xs[*].[let $a = missing in map(&$a, xs)]",
+	"let $a = id in let $b = 'b' in let $a = missing in map(&[$a, $b], xs)",
 }
 
 func c19ShapesRun(c *Ctx, idx int) {
@@ -247,7 +282,7 @@ func c19ShapesRun(c *Ctx, idx int) {
 func init() {
 	Register(&Property{
 		ID:            "C19",
-		Rule:          "let-expressions over variables {$a,$b,$c} whose bound values are unique tagged literals or context-dependent selections (id of the current node), so the result says which binding and which context was captured: 45 canonical scope shapes (rebinding, shadowing, let $a = $a, sibling references, use after the body, bindings under projections/filters/pipes/multi-selects/sort_by, max_by, min_by, map, group_by expression references, nested lets rebinding per element, unbound references at every kind of site, short-circuited unbound references) plus seeded random nestings of depth 3-4 mixing all of those; compared with the reference model's lexical environments; non-trivial = model decides and the text uses a variable",
+		Rule:          "let-expressions over variables {$a,$b,$c} whose bound values are unique tagged literals or context-dependent selections (id of the current node), so the result says which binding and which context was captured: 66 canonical scope shapes (incl. wide lets of 6-10 bindings followed by narrow lets that look up unbound or outer names) (rebinding, null-valued inner bindings shadowing non-null outer ones at every kind of use site, shadowing, let $a = $a, sibling references, use after the body, bindings under projections/filters/pipes/multi-selects/sort_by, max_by, min_by, map, group_by expression references, nested lets rebinding per element, unbound references at every kind of site, short-circuited unbound references) plus seeded random nestings of depth 3-4 mixing all of those; compared with the reference model's lexical environments; non-trivial = model decides and the text uses a variable",
 		MinNontrivial: 1000,
 		Streams: []Stream{
 			{Name: "shapes", Setup: c19Setup, N: func(c *Ctx) int { return len(c19Shapes) }, Run: c19ShapesRun, Exhaustive: true},
